@@ -97,6 +97,13 @@ impl ParseData for FromMetaOptions {
 
         match self.base.data {
             Data::Struct(ref data) => {
+                if data.is_tuple() && data.len() > 1 {
+                    errors.push(
+                        Error::custom("`FromMeta` cannot be derived for tuple structs with more than one field")
+                            .with_span(&self.base.ident),
+                    );
+                }
+
                 if let Some(from_word) = &self.from_word {
                     if data.is_unit() {
                         errors.push(Error::custom("`from_word` cannot be used on unit structs because it conflicts with the generated impl").with_span(from_word));
